@@ -1,0 +1,39 @@
+//go:build verif
+
+// Contracts checked by /verif/gvc (contract-based deductive verification).
+// This file contains comments only; it is compiled only under the "verif" build tag.
+
+package bitmap
+
+// The bitmap is verified with 64/16/8-bit bit-vector semantics (mode bv) against the abstract
+// view "set of offsets": bit(b, o). Callers verified with mathematical integers see bit() as an
+// uninterpreted function of the bitmap's bytes.
+
+//@ spec func bit(b *Bitmap, o uint16) bool mode bv reads b.vals, elems(b.vals) = ((b.vals[o >> 3] >> (o & 7)) & 1) == 1
+//@ spec func bitmapOK(b *Bitmap) bool mode bv reads b.vals, b.size = b != nil && b.vals != nil && uint64(b.size >> 3) < uint64(len(b.vals))
+
+//@ func New mode bv
+//@ props C03
+//@ ensures [C03] result != nil && isfresh(result) && bitmapOK(result)
+//@ ensures [C03] (size == 0 || size >= 65535) ==> result.size == 65535
+//@ ensures [C03] (size > 0 && size <= 65528) ==> result.size >= size
+//@ ensures [C03] forall o uint16 :: o <= result.size ==> !bit(result, o)
+
+//@ func (*Bitmap).Set mode bv
+//@ props C03
+//@ requires [C03] bitmapOK(b)
+//@ modifies elems(b.vals)
+//@ ensures [C03] result == (offset <= b.size)
+//@ ensures [C03] bitmapOK(b)
+//@ ensures [C03] result ==> forall o uint16 :: o <= b.size ==> bit(b, o) == (o == offset ? value != 0 : old(bit(b, o)))
+//@ ensures [C03] !result ==> forall o uint16 :: o <= b.size ==> bit(b, o) == old(bit(b, o))
+
+//@ func (*Bitmap).Get mode bv
+//@ props C03
+//@ requires [C03] bitmapOK(b)
+//@ ensures [C03] result == ((offset <= b.size && bit(b, offset)) ? 1 : 0)
+
+//@ func (*Bitmap).Size mode bv
+//@ props C03
+//@ requires b != nil
+//@ ensures result == b.size
